@@ -270,7 +270,50 @@ func runC14(c *Ctx) {
 			}
 		}
 		c.Check("C14.R3", pk+":diverts", drIf.Pos(), okRets && nret >= 2, "a hijacked request leaves only for the send-filter phase (or Oneway) with ErrExit, or continues when already there", "a path of the directResponse branch returns to the normal phase order: the denied request would go on to choose a host and be forwarded")
-		c.Check("C14.R3", pk+":no-retry", drIf.Pos(), retryCleared, "retryState cleared: a denied request is never retried upstream", "the directResponse branch no longer clears retryState")
+		if !retryCleared {
+			// equivalent: every function that raises directResponse clears the retry state itself (unconditionally,
+			// directly or through a helper it always calls)
+			clears := func(fn *ssa.Function) bool {
+				ok := false
+				var visit func(f *ssa.Function, d int)
+				visit = func(f *ssa.Function, d int) {
+					for _, st := range storesToField(f, ".downStream", "retryState", false) {
+						if isNilConst(st.Val) && unconditionalIn(st) {
+							ok = true
+						}
+					}
+					if d >= 2 {
+						return
+					}
+					forEachInstr(f, false, func(_ *ssa.Function, in ssa.Instruction) {
+						if ci, isCall := in.(*ssa.Call); isCall && unconditionalIn(ci) {
+							if callee := ci.Common().StaticCallee(); callee != nil && callee.Pkg == f.Pkg {
+								visit(callee, d+1)
+							}
+						}
+					})
+				}
+				visit(fn, 0)
+				return ok
+			}
+			all, n := true, 0
+			for _, f := range c.PkgFuncs(pkg) {
+				raises := false
+				for _, st := range storesToField(f, ".downStream", "directResponse", false) {
+					if b, isB := constBool(st.Val); isB && b {
+						raises = true
+					}
+				}
+				if raises {
+					n++
+					if !clears(f) {
+						all = false
+					}
+				}
+			}
+			retryCleared = all && n > 0
+		}
+		c.Check("C14.R3", pk+":no-retry", drIf.Pos(), retryCleared, "retryState cleared (in the directResponse branch, or by every function that raises directResponse): a denied request is never retried upstream", "a request answered by a filter keeps its retry state: neither the directResponse branch nor every raiser of directResponse clears it, so the filter's reply can be taken for a retryable upstream response and the denied request is sent upstream")
 		c.Check("C14.R3", pk+":flag-consumed", drIf.Pos(), flagCleared, "directResponse is reset once consumed", "directResponse is not reset: the reply would be diverted again and again")
 	}
 
